@@ -55,12 +55,19 @@ def _run_job(job):
     try:
         rep = vc.explore(ob.fn, ob.name, ob.props[0], preset_cases=preset)
         out = []
+        n_falsify = 0
         for inst in rep.instances:
             d = dict(label=inst.label, cases=_jsonable(inst.cases), status=inst.status, backend=inst.backend,
                      seconds=inst.seconds, inputs=_jsonable(inst.inputs), detail=inst.detail, replay=None)
             if inst.status == "refuted":
                 ok, detail = vc.replay_native(ob.fn, inst)
                 d["replay"] = {"reproduced": ok, "detail": detail}
+            elif inst.status == "unknown" and n_falsify < 6:
+                n_falsify += 1
+                vals, detail = vc.falsify_natively(ob.fn, inst, seed=int(os.environ.get("VERIF_SEED", "0") or 0))
+                if vals is not None:
+                    d.update(status="refuted", inputs=_jsonable(vals), backend=inst.backend + "+native-sampling",
+                             replay={"reproduced": True, "detail": detail, "how": "solver undecided; failing input found by running the harness natively on sampled inputs"})
             out.append(d)
         return dict(idx=idx, preset=_jsonable(preset), instances=out, paths=rep.paths, infeasible=rep.infeasible,
                     errors=rep.errors, notes=rep.notes, functions=rep.functions, covered=rep.covered, seconds=time.time() - t0)
